@@ -822,8 +822,15 @@ func (c *ctr) stmt(s ast.Stmt) (res string) {
 				rs := c.calleeResults(call)
 				for i, l := range v.Lhs {
 					if st, ok := l.(*ast.StarExpr); ok {
-						_ = st
-						c.fail("assignment through a pointer: " + nodeText(l))
+						// *p, err = f(..) for a pointer to an interface value (p is nil or a one-element list)
+						id, isId := st.X.(*ast.Ident)
+						if _, isStruct := c.structVars[nodeText(st.X)]; !isId || isStruct {
+							c.fail("assignment through a pointer: " + nodeText(l))
+						}
+						t := c.tmp()
+						ts = append(ts, t)
+						post = append(post, fmt.Sprintf("TSetIdx %s (XInt 0) (XVar %s)", q(id.Name), q(t)))
+						continue
 					}
 					if ix, ok := l.(*ast.IndexExpr); ok {
 						if _, ok := c.mapField(ix.X); ok {
@@ -1029,7 +1036,7 @@ func compTargets() []ctarget {
 	add("BCE", "component/losses", "BCE", "validateInputs")
 	add("CE", "component/losses", "CE", "validateInputs")
 	add("SGD", "component/optimizers", "", "NewSGD", "toValidSGDConfig")
-	add("SGD", "component/optimizers", "SGD", "toValidInputs")
+	add("SGD", "component/optimizers", "SGD", "toValidInputs", "Update")
 	add("FC", "component/layers", "FC", "Forward", "toValidInputs")
 	add("FC", "component/layers", "", "validateInitializedWeights", "NewFC", "toValidFCConfig")
 	add("Input", "component/layers", "", "NewInput")
